@@ -765,31 +765,28 @@ class Result(JsonSerializable):
         Result
             The converted object.
         """
-        if isinstance(d['value'], Iterable) and \
-           d['update_type_code'] == Result.CHOICETYPE:
-
-            values = d['value']
-
+        # Restore the stored fields directly. Replaying calls of `update`
+        # would not work for a Result that was never updated and would change
+        # the order of the accumulated values of a CHOICETYPE Result.
+        type_code = d['update_type_code']
+        if type_code == Result.CHOICETYPE:
+            value = np.array(d['value'], dtype=int)
             r = Result(name=d['name'],
-                       update_type_code=d['update_type_code'],
+                       update_type_code=type_code,
                        accumulate_values=d['accumulate_values_bool'],
-                       choice_num=len(values))  # type: ignore
-
-            for i, v in enumerate(values):
-                for _ in range(v):
-                    r.update(i)
-
+                       choice_num=len(value))
         else:
-            r = Result.create(name=d['name'],
-                              update_type=d['update_type_code'],
-                              value=d['value'],
-                              total=d['total'],
-                              accumulate_values=d['accumulate_values_bool'])
-            r._value_list = d['value_list']
-            r._total_list = d['total_list']
-            r.num_updates = d['num_updates']
-            r._result_sum = d['result_sum']
-            r._result_squared_sum = d['result_squared_sum']
+            value = d['value']
+            r = Result(name=d['name'],
+                       update_type_code=type_code,
+                       accumulate_values=d['accumulate_values_bool'])
+        r._value = value
+        r._total = d['total']
+        r._value_list = d['value_list']
+        r._total_list = d['total_list']
+        r.num_updates = d['num_updates']
+        r._result_sum = d['result_sum']
+        r._result_squared_sum = d['result_squared_sum']
         return r
 
 
